@@ -58,8 +58,15 @@ impl Arr {
         arrival::ArrivalCurvePrefix::new(d(horizon), steps.iter().map(|(x, n)| (d(*x), *n)).collect())
     }
 
-    /// Construct the library object.
+    /// Construct the library object, wrapped so that every item pulled from its `steps_iter` counts
+    /// against the armed loop budget (hook H3): a consumer that never stops pulling — e.g. a filter
+    /// that rejects every step — becomes a deterministic fuel event instead of a hang.
     pub fn build(&self) -> Box<dyn ArrivalBound> {
+        Box::new(Ticking(self.build_raw()))
+    }
+
+    /// Construct the bare library object.
+    pub fn build_raw(&self) -> Box<dyn ArrivalBound> {
         match self {
             Arr::Periodic { t } => Box::new(arrival::Periodic::new(d(*t))),
             Arr::Sporadic { t, j } => Box::new(arrival::Sporadic::new(d(*t), d(*j))),
@@ -599,5 +606,29 @@ impl ArrGen {
                 j: rng.range(0, jmax),
             },
         }
+    }
+}
+
+/// See `Arr::build`.
+pub struct Ticking(pub Box<dyn ArrivalBound>);
+
+impl ArrivalBound for Ticking {
+    fn number_arrivals(&self, delta: Duration) -> usize {
+        self.0.number_arrivals(delta)
+    }
+    fn steps_iter<'a>(&'a self) -> Box<dyn Iterator<Item = Duration> + 'a> {
+        // the i-th item costs 1 + i/512 budget units: consumers that pull a few thousand steps are
+        // unaffected, a consumer that never stops runs out of budget after ~17 000 items — before the
+        // per-item work of caching iterators (which grows with i) turns the runaway loop into minutes
+        let mut i = 0u64;
+        Box::new(self.0.steps_iter().inspect(move |_| {
+            i += 1;
+            for _ in 0..(1 + i / 512) {
+                response_time_analysis::verif_hooks::tick("harness: item pulled from steps_iter");
+            }
+        }))
+    }
+    fn clone_with_jitter(&self, jitter: Duration) -> Box<dyn ArrivalBound> {
+        Box::new(Ticking(self.0.clone_with_jitter(jitter)))
     }
 }
